@@ -597,6 +597,7 @@ type Frame struct {
 	blockPC     map[*ssa.BasicBlock]string
 	blockSt     map[*ssa.BasicBlock]*State
 	edgePC      map[[2]int]string
+	applyMC     *ssa.MakeClosure     // closure value whose contract is being applied at the current call site
 	iterVis     map[ssa.Value]string // range-over-map iterator -> state key of visited set
 	iterMap     map[ssa.Value]ssa.Value
 	callOrd     map[string]int
